@@ -25,8 +25,11 @@ def g_knapsack(r, big):
     profit = [r.randint(0, 12) for _ in range(n)]
     weight = [r.randint(1, 9) for _ in range(n)]
     cap = r.randint(0, max(1, sum(weight) * 2 // 3))
-    txt = ("c generated\n" if r.random() < 0.3 else "") + f"{n} {cap}\n" + "".join(f"{p} {w}\n" for p, w in zip(profit, weight))
-    return {"profit": profit, "weight": weight, "capacity": cap}, txt, "kp.txt"
+    # now and then the same instance in large units (profits x 10^9, weights and capacity x 10^9 -- well within i64, one by one):
+    # the oracle works on the small numbers, the printed objective must be the small optimum times the unit
+    up, uw = (10 ** 9, 10 ** 9) if r.random() < 0.25 else (1, 1)
+    txt = ("c generated\n" if r.random() < 0.3 else "") + f"{n} {cap * uw}\n" + "".join(f"{p * up} {w * uw}\n" for p, w in zip(profit, weight))
+    return {"profit": profit, "weight": weight, "capacity": cap, "unit": up}, txt, "kp.txt"
 
 
 def g_misp(r, big):
@@ -211,7 +214,7 @@ def parse_out(ex, out):
         return None
 
 
-def run_example(bindir, ex, path_or_arg, width, threads):
+def run_example(bindir, ex, path_or_arg, width, threads, unit=1):
     exe = os.path.join(bindir, ex)
     args = []
     if width is not None:
@@ -228,7 +231,10 @@ def run_example(bindir, ex, path_or_arg, width, threads):
     po = parse_out(ex, p.stdout)
     if po is None:
         return {"ev": "exrun", "args": args, "status": "unparsable", "objective": 0, "aborted": False, "stdout": p.stdout[-300:]}
-    return {"ev": "exrun", "args": args, "status": "ok", "objective": po[0], "aborted": po[1]}
+    obj = po[0]
+    if unit != 1:
+        obj = obj // unit if obj % unit == 0 else -777777          # not a multiple of the unit: certainly not the optimum
+    return {"ev": "exrun", "args": args, "status": "ok", "objective": obj, "aborted": po[1]}
 
 
 def c16(tier, replay):
@@ -270,7 +276,7 @@ def c16(tier, replay):
 
     def one(job):
         run, ex, inst, txt, name, arg, confs = job
-        return job, [run_example(bindir, ex, arg, wd, th) for wd, th in confs]
+        return job, [run_example(bindir, ex, arg, wd, th, unit=(inst.get("unit", 1) if isinstance(inst, dict) else 1)) for wd, th in confs]
     # ---- differential sweep: many more instances, each solved with a narrow, the default and a very large width; the runs of an instance
     # must print the same objective.  Instances whose runs disagree (or crash / hang / abort) join the jobs that TLC judges below -- the sweep
     # itself never decides anything, it only selects candidates for the oracle.
